@@ -69,3 +69,14 @@ def state_of(data):
         pass
     u.load()
     return u.load()
+
+
+class PNewArgs(persistent.Persistent):
+    """Class with constructor arguments: references to it carry no cached class."""
+
+    def __init__(self, name=''):
+        self.name = name
+        self.data = {}
+
+    def __getnewargs__(self):
+        return ()
